@@ -6,8 +6,11 @@
 //! feature is active. The wrappers strip the `Result` returns from loom's API
 //! so call sites stay identical.
 
-#[cfg(not(feature = "loom"))]
+#[cfg(not(any(feature = "loom", feature = "neumann_verif")))]
 pub use parking_lot::{Mutex, RwLock};
+
+#[cfg(all(feature = "neumann_verif", not(feature = "loom")))]
+pub use self::verif_compat::{Mutex, RwLock};
 
 #[cfg(feature = "loom")]
 pub use self::loom_compat::{Mutex, RwLock};
@@ -73,6 +76,99 @@ mod loom_compat {
                 Ok(guard) => f.debug_tuple("Mutex").field(&*guard).finish(),
                 Err(_) => f.debug_tuple("Mutex").field(&"<locked>").finish(),
             }
+        }
+    }
+}
+
+/// `parking_lot` locks whose acquisitions are schedule points for the
+/// deterministic simulator (feature `neumann_verif`). Guards are the plain
+/// `parking_lot` guards. Without an installed hook, or on a thread the
+/// simulator does not schedule, they behave exactly like `parking_lot`.
+#[cfg(all(feature = "neumann_verif", not(feature = "loom")))]
+mod verif_compat {
+    use std::fmt;
+
+    use tensor_store::verif_hooks::yield_point;
+
+    pub struct RwLock<T>(parking_lot::RwLock<T>);
+
+    impl<T> RwLock<T> {
+        pub const fn new(t: T) -> Self {
+            Self(parking_lot::RwLock::new(t))
+        }
+
+        pub fn read(&self) -> parking_lot::RwLockReadGuard<'_, T> {
+            if yield_point("tensor_chain.lock") {
+                loop {
+                    if let Some(guard) = self.0.try_read() {
+                        return guard;
+                    }
+                    if !yield_point("tensor_chain.lock.wait") {
+                        break;
+                    }
+                }
+            }
+            self.0.read()
+        }
+
+        pub fn write(&self) -> parking_lot::RwLockWriteGuard<'_, T> {
+            if yield_point("tensor_chain.lock") {
+                loop {
+                    if let Some(guard) = self.0.try_write() {
+                        return guard;
+                    }
+                    if !yield_point("tensor_chain.lock.wait") {
+                        break;
+                    }
+                }
+            }
+            self.0.write()
+        }
+    }
+
+    impl<T: Default> Default for RwLock<T> {
+        fn default() -> Self {
+            Self::new(T::default())
+        }
+    }
+
+    impl<T: fmt::Debug> fmt::Debug for RwLock<T> {
+        fn fmt(&self, f: &mut fmt::Formatter<'_>) -> fmt::Result {
+            self.0.fmt(f)
+        }
+    }
+
+    pub struct Mutex<T>(parking_lot::Mutex<T>);
+
+    impl<T> Mutex<T> {
+        pub const fn new(t: T) -> Self {
+            Self(parking_lot::Mutex::new(t))
+        }
+
+        pub fn lock(&self) -> parking_lot::MutexGuard<'_, T> {
+            if yield_point("tensor_chain.lock") {
+                loop {
+                    if let Some(guard) = self.0.try_lock() {
+                        return guard;
+                    }
+                    if !yield_point("tensor_chain.lock.wait") {
+                        break;
+                    }
+                }
+            }
+            self.0.lock()
+        }
+    }
+
+    impl<T: Default> Default for Mutex<T> {
+        fn default() -> Self {
+            Self::new(T::default())
+        }
+    }
+
+    impl<T: fmt::Debug> fmt::Debug for Mutex<T> {
+        fn fmt(&self, f: &mut fmt::Formatter<'_>) -> fmt::Result {
+            self.0.fmt(f)
         }
     }
 }
